@@ -200,6 +200,7 @@ func runCase(res *mon.Result, c ccase, dir string) {
 	// the endpoint now stays up: wait for the backlog to drain (bounded steps)
 	want := make(map[string]bool, handed)
 	var recvSet map[string]bool
+	col := newCollector(prefix)
 	stable := 0
 	lastRecv, lastBacklog := -1, int64(-2)
 	drained := false
@@ -214,7 +215,7 @@ func runCase(res *mon.Result, c ccase, dir string) {
 			case <-time.After(3 * time.Second):
 			}
 		}
-		recvSet, malformed = collect(ep, prefix)
+		recvSet, malformed = col.collect(ep)
 		bl := dest.VerifSpoolBacklog()
 		owed := handed - len(recvSet) - int(d.Get(mon.KeyDestDropSlowConn(dkey))+d.Get(mon.KeyDestDropSlowSpool(dkey)))
 		if bl == 0 && owed <= 0 {
@@ -278,12 +279,26 @@ func runCase(res *mon.Result, c ccase, dir string) {
 	}
 }
 
-// collect returns the set of ids of complete, well-formed lines over all incarnations.
-func collect(ep *mon.Endpoint, prefix string) (set map[string]bool, malformed string) {
-	set = map[string]bool{}
-	pb := []byte(prefix)
+// collector accumulates the set of ids of complete, well-formed lines over all
+// incarnations; every connection's stream is parsed only once.
+type collector struct {
+	prefix    string
+	set       map[string]bool
+	malformed string
+	off       map[*mon.ConnRec]int
+	tail      map[*mon.ConnRec][]byte
+}
+
+func newCollector(prefix string) *collector {
+	return &collector{prefix: prefix, set: map[string]bool{}, off: map[*mon.ConnRec]int{}, tail: map[*mon.ConnRec][]byte{}}
+}
+
+func (cl *collector) collect(ep *mon.Endpoint) (map[string]bool, string) {
+	pb := []byte(cl.prefix)
 	for _, cr := range ep.Conns() {
-		data := cr.Data()
+		nd := cr.DataFrom(cl.off[cr])
+		cl.off[cr] += len(nd)
+		data := append(cl.tail[cr], nd...)
 		for len(data) > 0 {
 			nl := bytes.IndexByte(data, '\n')
 			if nl < 0 {
@@ -298,20 +313,21 @@ func collect(ep *mon.Endpoint, prefix string) (set map[string]bool, malformed st
 			f := strings.Fields(string(l))
 			ok := bytes.HasPrefix(l, pb) && len(f) == 3 && bytes.Count(l, []byte(" ")) == 2
 			if ok {
-				id := strings.TrimPrefix(f[0], prefix)
+				id := strings.TrimPrefix(f[0], cl.prefix)
 				var n int64
 				if _, err := fmt.Sscanf(id, "m%d", &n); err != nil || f[1] != fmt.Sprint(n) || f[2] != fmt.Sprint(1600000000+n%50000) {
 					ok = false
 				} else {
-					set[id] = true
+					cl.set[id] = true
 				}
 			}
-			if !ok && malformed == "" {
-				malformed = fmt.Sprintf("%.120q", l)
+			if !ok && cl.malformed == "" {
+				cl.malformed = fmt.Sprintf("%.120q", l)
 			}
 		}
+		cl.tail[cr] = append([]byte(nil), data...)
 	}
-	return set, malformed
+	return cl.set, cl.malformed
 }
 
 func main() {
